@@ -94,7 +94,7 @@ class CHECK(Check):
         base_before = (getattr(base, attr), dict(base.VERSIONS))
         trace = []
         for c, v in case["ops"]:
-            classes[c].set_version(v)
+            classes[c].set_version("".join(list(v)))      # equal to, but never the same object as, a key of the table
             trace.append([self.ident_of(getattr(k, attr)) for k in classes])
         if (getattr(base, attr), dict(base.VERSIONS)) != base_before or getattr(base, attr) != []:
             return {"error": "framework base class modified"}
